@@ -419,7 +419,52 @@ impl Check for C12 {
                 return fail("consensus-not-entails-max", name.to_string());
             }
         }
-        Ok(serde_json::json!({}))
+        // every way of building a Threshold obeys 1 <= k <= n <= MAX (MAX = 0: unbounded), also
+        // from iterators whose size hint is inexact; the multisig constructors on top of it too
+        fn thresh_table<const MAX: usize>(st: &mut crate::runner::Stats) -> Result<(), Failure> {
+            for n in 0..=(if MAX == 0 { 24 } else { MAX + 3 }) {
+                for k in 0..=n + 1 {
+                    let want = k >= 1 && k <= n && (MAX == 0 || n <= MAX);
+                    let items: Vec<usize> = (0..n).collect();
+                    let a = miniscript::Threshold::<usize, MAX>::new(k, items.clone()).is_ok();
+                    let b2 = miniscript::Threshold::<usize, MAX>::from_iter(k, items.clone().into_iter()).is_ok();
+                    let c = miniscript::Threshold::<usize, MAX>::from_iter(k, items.clone().into_iter().filter(|_| true)).is_ok();
+                    let mut it = items.clone().into_iter();
+                    let d = miniscript::Threshold::<usize, MAX>::from_iter(k, std::iter::from_fn(move || it.next())).is_ok();
+                    let e = miniscript::Threshold::<usize, MAX>::from_iter(k, items.iter().flat_map(|x| Some(*x))).is_ok();
+                    let f = miniscript::Threshold::<usize, 0>::new(k, items.clone()).ok().map(|t| t.set_maximum::<MAX>().is_ok());
+                    st.evaluations += 6;
+                    for (name, got) in [("new", a), ("from_iter(exact)", b2), ("from_iter(filter)", c), ("from_iter(from_fn)", d), ("from_iter(flat_map)", e)] {
+                        if got != want {
+                            return fail(&format!("threshold-ctor/{}", name), format!("Threshold::<_, {}>::{} with k={} n={} is {} but 1 <= k <= n <= MAX is {}", MAX, name, k, n, if got { "accepted" } else { "rejected" }, want));
+                        }
+                    }
+                    if let Some(f) = f {
+                        if f != want {
+                            return fail("threshold-ctor/set_maximum", format!("set_maximum::<{}> with k={} n={} is {} but should be {}", MAX, k, n, f, want));
+                        }
+                    }
+                }
+            }
+            Ok(())
+        }
+        thresh_table::<0>(st)?;
+        thresh_table::<20>(st)?;
+        thresh_table::<3>(st)?;
+        // 21 / 1000 keys offered through an inexact-size iterator to the multisig terminals
+        {
+            use miniscript::miniscript::decode::Terminal;
+            let ks: Vec<DK> = (0..21).map(|i| DK::from_str(&keys::key_compressed(i % 12)).unwrap()).collect();
+            if let Ok(t) = miniscript::Threshold::<DK, 20>::from_iter(2, ks.iter().cloned().filter(|_| true)) {
+                if let Ok(ms) = Miniscript::<DK, Segwitv0>::from_ast(Terminal::Multi(t)) {
+                    if Descriptor::new_wsh(ms).is_ok() {
+                        return fail("ctor-accepts/multi-21-keys", "Threshold::from_iter -> Terminal::Multi -> from_ast -> Descriptor::new_wsh accepts a 21-key multi".to_string());
+                    }
+                }
+            }
+            st.evaluations += 1;
+        }
+        Ok(serde_json::json!({"threshold_constructor_table": "k 0..=n+1, n 0..=MAX+3 for MAX in {0 (unbounded, n <= 24), 3, 20}; new / from_iter with exact and inexact size hints / set_maximum"}))
     }
     fn run_case(&self, lane: &str, src: &mut Src, rep: &mut Report) -> Result<(), Failure> {
         let ctx = *src.pick(&[Ctx::Segwitv0, Ctx::Tap, Ctx::Legacy, Ctx::Bare]);
@@ -590,6 +635,48 @@ impl Check for C12 {
                     }
                 } else if violation != "none" {
                     rep.nontrivial_by(&("rejected", &dtext));
+                }
+                // key translation as an entry point: the same descriptor as a String-keyed template,
+                // translated to the real keys (for tr also with an uncompressed internal key)
+                {
+                    let mut names: Vec<String> = Vec::new();
+                    let named = node.map_keys(&mut |k| {
+                        let i = match names.iter().position(|x| x == k) {
+                            Some(i) => i,
+                            None => {
+                                names.push(k.to_string());
+                                names.len() - 1
+                            }
+                        };
+                        format!("K{}", i)
+                    });
+                    let ntext = ast::print(&named, true);
+                    let bad_internal = dctx == Ctx::Tap && src.chance(1, 4);
+                    let ndtext = match wk {
+                        0 => format!("wsh({})", ntext),
+                        1 => format!("sh(wsh({}))", ntext),
+                        2 => format!("sh({})", ntext),
+                        3 => format!("tr(KI,{})", ntext),
+                        9 => ntext.clone(),
+                        _ => format!("tr(KI,{{{},pk(KJ)}})", ntext),
+                    };
+                    if let Ok(t) = Descriptor::<String>::from_str(&ndtext) {
+                        let mut map = std::collections::HashMap::new();
+                        for (i, k) in names.iter().enumerate() {
+                            map.insert(format!("K{}", i), k.clone());
+                        }
+                        map.insert("KI".to_string(), if bad_internal { keys::key_uncompressed(10) } else { keys::key_xonly(10) });
+                        map.insert("KJ".to_string(), keys::key_xonly(9));
+                        if t.translate_pk(&mut crate::checks::c20::ToConcrete { map }).is_ok() {
+                            rep.class("accepted:translate_pk");
+                            let v = if bad_internal { Some("illegal-key-kind (uncompressed internal key)".to_string()) } else { cv.clone().filter(|v| v.starts_with("illegal-key")) };
+                            if let Some(v) = v {
+                                return fail(&format!("translate_pk-accepts/{}", v.split(' ').next().unwrap_or("?")), format!("translating the template `{}` to the keys of `{}` is accepted although the result violates: {}", ndtext, dtext, v));
+                            }
+                        } else if bad_internal {
+                            rep.class("rejected:translate_pk-bad-internal-key");
+                        }
+                    }
                 }
                 // constructors on a MAX-parsed miniscript
                 macro_rules! ctor {
